@@ -196,7 +196,7 @@ def syn_state(seed, prop):
     cons = []
     for c in range(r.randint(1, 3)):
         members = r.sample(ids, r.randint(2, n)) if n >= 2 else ids
-        coeffs = {m: r.choice([1, 1, 1, -1, 0.5]) for m in members}
+        coeffs = {m: r.choice([1, 1, 1, -1, 0.5, 2, -2]) for m in members}          # weights above 1 occur (primary side of a delta-wye transformer)
         lim = r.choice([r.randint(8, 120), round(r.uniform(8, 90), 1)])
         net.add_constraint(acnsim.Current(dict(coeffs)), lim, name=f"c{c}")
         cons.append(dict(name=f"c{c}", coeffs=coeffs, limit=lim))
@@ -240,10 +240,52 @@ def run_syn(seed, prop):
         with warnings.catch_warnings():
             warnings.simplefilter("ignore")
             sch.run()
+            if seed % 2:
+                # the limits of the network are tightened AFTER the algorithm has already looked at it (a constraint updated under its own name): the
+                # next schedule has to respect the network as it is now
+                from acnportal import acnsim
+                for c in scn["constraints"]:
+                    c["limit"] = c["limit"] / 2
+                    sim.network.update_constraint(c["name"], acnsim.Current(dict(c["coeffs"])), c["limit"])
+                sch.run()
     except ValueError as e:
         if "lower bound is not feasible" not in str(e):        # documented outcome when the vector of lower bounds is infeasible
             found.append(("C07", "schedule_call_raises_nothing_else", False, f"{type(e).__name__}: {e}"))
+    if prop == "C08" and seed % 3 == 0:
+        found.extend(_uncontrolled_rebound(seed))
     return found, (kind, opts["sort"], opts["estimate"], opts["uninterrupted"], len(scn["stations"]), len(scn["constraints"]))
+
+
+def _uncontrolled_rebound(seed):
+    """C08: ONE UncontrolledCharging object used on a first site and then registered with a second site that reuses the station ids with other EVSEs:
+    every active session gets exactly ITS station's maximum pilot on the site the algorithm is attached to now"""
+    from datetime import datetime
+    from acnportal import acnsim
+    from acnportal import algorithms as alg
+    r = random.Random(seed * 7 + 1)
+    ids = [f"U{k}" for k in range(r.randint(2, 4))]
+    sch = alg.UncontrolledCharging()
+    out = []
+    for site in range(2):
+        net = acnsim.ChargingNetwork()
+        maxes = {}
+        for sid in ids:
+            if r.random() < 0.3:
+                rates = sorted(r.sample([8, 16, 24, 32, 40], r.randint(2, 4)))
+                net.register_evse(acnsim.FiniteRatesEVSE(sid, rates), 208, 0)
+                maxes[sid] = max(rates)
+            else:
+                mx = r.choice([16, 32, 48, 80])
+                net.register_evse(acnsim.EVSE(sid, max_rate=mx), 208, 0)
+                maxes[sid] = mx
+        active = [sid for sid in ids if r.random() < 0.8] or ids[:1]
+        for j, sid in enumerate(active):
+            net.plugin(acnsim.EV(0, 30, 20.0, sid, f"u{site}_{j}", acnsim.Battery(100, 0, 100)))
+        sim = acnsim.Simulator(net, sch, acnsim.EventQueue(), datetime(2020, 1, 1), period=5, verbose=False)
+        got = sch.run()
+        ok = set(got) == set(active) and all(list(got[sid]) == [maxes[sid]] for sid in active)
+        out.append(("C08", "uncontrolled_gives_station_maximum_on_the_site_it_is_attached_to", ok, "" if ok else f"site {site + 1}: got {got}, station maxima {maxes}, active {active}"))
+    return out
 
 
 def _wrap_alloc(sim, scn, sch, kind, opts, found):
